@@ -7,7 +7,7 @@ import copy
 from hypothesis import strategies as st
 
 from ..common import Stats, run_hypothesis, Violation
-from .. import qgen, relcheck, refmodel, engine
+from .. import qgen, relcheck, refmodel, engine, jsdriver
 
 PROP = 'C02'
 LEVEL = 'exploration'
@@ -23,7 +23,7 @@ ASSUMPTIONS = ['sort keys are totally ordered values of one type; DISTINCT recor
 
 
 def plan(tier):
-    return {'stages': [('shard', 12), ('shard_unbounded', 4)], 'timeout_s': 3000}
+    return {'stages': [('shard', 12), ('shard_unbounded', 2), ('shard_unbounded_js', 2)], 'timeout_s': 3000}
 
 
 def strip(q, *keys):
@@ -176,19 +176,20 @@ def st_unbounded(draw):
         if k == 0:
             items.append({'k': 'star'})
         elif k == 1 and not any(it['k'] == 'unnest' for it in items):
-            items.append({'k': 'unnest', 'e': qgen.mk("['u', a1]", None, 'list'), 'sp': 'UNNEST'})
+            items.append({'k': 'unnest', 'e': qgen.mk("['u', a1]", "['u', a1]", 'list'), 'sp': 'UNNEST'})
         else:
             items.append({'k': 'expr', 'e': qgen.e_str(ctx, 1)})
     q = {'type': 'select', 'items': items, 'join': join}
     wk = draw(st.integers(0, 4))
     if wk == 1:
-        q['where'] = qgen.mk('NR % 2', None, 'int')
+        q['where'] = qgen.mk('NR % 2', 'NR % 2', 'int')
     elif wk == 2:
-        q['where'] = qgen.mk('NR % 3 == 0', None, 'bool')
+        q['where'] = qgen.mk('NR % 3 == 0', 'NR % 3 == 0', 'bool')
     elif wk == 3:
-        q['where'] = qgen.mk("len(a1 or '') > 0", None, 'bool')
+        q['where'] = qgen.mk("len(a1 or '') > 0", "(a1 || '').length > 0", 'bool')
     elif wk == 4 and join is None:
-        q['where'] = qgen.mk("NR > %d" % draw(st.integers(0, 9)), None, 'bool')
+        n = draw(st.integers(0, 9))
+        q['where'] = qgen.mk("NR > %d" % n, "NR > %d" % n, 'bool')
     if draw(st.integers(0, 2)) == 0:
         q['distinct'] = 'distinct'
     q['top'] = {'n': draw(st.integers(0, 12)), 'form': draw(st.sampled_from(['TOP', 'LIMIT']))}
@@ -231,6 +232,57 @@ def check_unbounded(case, stats=None):
         raise Violation('unbounded-finish', {'query': text, 'trace': got['trace'][-5:]})
 
 
+def check_unbounded_js(case, drv, stats=None):
+    """The termination clause on the JavaScript engine: rbql.query() over an iterator with an endless tail."""
+    width = case['width']
+    horizon = 400
+    if not qgen.renderable(case['q'], 'js'):
+        if stats is not None:
+            stats.bump('js-unbounded-not-renderable')
+        return
+    fin_case = dict(case)
+    fin_case['A'] = list(case['A']) + [tail_record(nr, width) for nr in range(len(case['A']) + 1, horizon + 1)]
+    exp = refmodel.ref_select(fin_case)
+    if exp['pulled'] >= horizon:
+        if stats is not None:
+            stats.bump('unbounded-discarded-bound-not-reached')
+        return
+    text = qgen.render(case['q'], 'js')
+    budget = exp['pulled']
+    got = drv.call({'cmd': 'query_endless', 'query': text, 'A': case['A'], 'B': case.get('B'), 'width': width, 'budget': budget})
+    if stats is not None:
+        cl = ['js-unbounded', 'js-unbounded-top-%s' % ('0' if case['q']['top']['n'] == 0 else 'n')]
+        if case['q'].get('distinct'):
+            cl.append('js-unbounded-distinct')
+        if case['q'].get('join'):
+            cl.append('js-unbounded-join')
+        if any(it['k'] == 'unnest' for it in case['q']['items']):
+            cl.append('js-unbounded-unnest')
+        stats.case(case, exp['pulled'] > len(case['A']), cl, sample={'js_query': text, 'prefix': case['A'], 'pulled': got['pulled'], 'bound': budget, 'out': got['out'][:4]})
+    if got['exceeded']:
+        raise Violation('js-bounded-query-keeps-pulling', {'js_query': text, 'budget': budget, 'prefix': case['A']})
+    if got['error'] is not None:
+        raise Violation('js-unbounded-error', {'js_query': text, 'error': got['error']})
+    diff = refmodel.compare_records(jsdriver.unclean(got['out']), exp['out'])
+    if diff is not None:
+        raise Violation('js-unbounded-records', {'js_query': text, 'diff': diff, 'got': got['out'][:8]})
+    if got['finishes'] != 1:
+        raise Violation('js-unbounded-finish', {'js_query': text, 'finishes': got['finishes']})
+
+
+def shard_unbounded_js(shard, nshards, tier, seed, scratch):
+    total = 1600 if tier == 'quick' else 20000
+    stats = Stats()
+    drv = jsdriver.Driver()
+    try:
+        failures = run_hypothesis(st_unbounded(), lambda c: check_unbounded_js(c, drv, stats), max(1, total // nshards), seed + 700, shrink_budget=200 if tier == 'quick' else 1000)
+    finally:
+        drv.close()
+    for f in failures:
+        f['leg'] = 'unbounded-js'
+    return {'stats': stats.export(), 'failures': failures}
+
+
 def shard(shard, nshards, tier, seed, scratch):
     total = 12000 if tier == 'quick' else 150000
     stats = Stats()
@@ -258,6 +310,11 @@ def replay(case, clause=None):
         return
     if 'width' in case:
         check_unbounded(case)
+        drv = jsdriver.Driver()
+        try:
+            check_unbounded_js(case, drv)
+        finally:
+            drv.close()
     else:
         check_case(case)
 
